@@ -276,11 +276,18 @@ class Problem:
             env[nm] = k / 8.0 * (self.env_range / 1.5)
         return env
 
-    def _ring_values(self, conv, env):
+    def _ring_values(self, conv, env, cache=None):
         ring = conv.ring
-        vals = [None] * len(ring.names)
-        memo = {}
-        for i, nm in enumerate(ring.names):
+        if cache is not None:
+            vals, memo = cache
+            start = len(vals)
+            vals.extend([None] * (len(ring.names) - start))
+        else:
+            vals = [None] * len(ring.names)
+            memo = {}
+            start = 0
+        for i in range(start, len(ring.names)):
+            nm = ring.names[i]
             k = ring.kind[i]
             meta = ring.meta[i]
             if k == "V":
@@ -355,12 +362,17 @@ class Problem:
 
     def _discharge(self, conv, oracle):
         listed = []
+        oracle.timeout_ms = 1500
+        t0 = time.time()
         for table, want, label in (
             (conv.assume_pos, "pos", "> 0"),
             (conv.assume_nonneg, "nonneg", ">= 0"),
             (conv.assume_nonzero, "nonzero", "!= 0"),
         ):
             for node, why in list(table.items()):
+                if time.time() - t0 > 8:
+                    listed.append("%s %s assumed (discharge budget exhausted, not attempted)" % (why, label))
+                    continue
                 try:
                     fr = conv.f(node)
                     if want == "pos":
@@ -389,19 +401,19 @@ class Problem:
         while tried < npts and attempts < 12:
             # the same few parameter points are shared by all goals of a problem (fewer distinct replays)
             if attempts >= len(self._envs):
-                self._envs.append(self._random_env(rnd, allvars))
-            env = self._envs[attempts]
+                self._envs.append((self._random_env(rnd, allvars), {}, {}, ([], {})))
+            env, mm, vm, rc = self._envs[attempts]
             attempts += 1
             try:
-                fa = S.evalf(conv.canon(g.a), env)
-                fb = S.evalf(conv.canon(g.b), env) if g.b is not None else 0.0
-                vals = self._ring_values(conv, env)
+                fa, ma = S.evalf_mag(conv.canon(g.a), env, mm, vm)
+                fb, mb = S.evalf_mag(conv.canon(g.b), env, mm, vm) if g.b is not None else (0.0, 0.0)
+                vals = self._ring_values(conv, env, rc)
                 fr = resid.evalf(vals)
             except (ValueError, ZeroDivisionError, OverflowError):
                 continue
             tried += 1
             d = fa - fb
-            scale = abs(fa) + abs(fb) + 1e-300
+            scale = ma + mb + 1e-300
             if not (abs(d - fr) <= 1e-7 * scale + 1e-9 * abs(fr) + 1e-12):
                 raise Inconclusive(
                     "encoder self-check failed: DAG difference %.12g vs normal form %.12g (scale %.3g)" % (d, fr, scale)
